@@ -226,7 +226,13 @@ def prove_lemmas(ctx: Ctx, name: str, preamble: str, lemmas: list[Lemma], per_fi
                 for lm in sh:
                     status.setdefault(lm.name, "ok")
                 return status
-            m = re.search(r'line (\d+), characters', err)
+            # the location that belongs to the Error (warnings also carry a location)
+            m = None
+            for mm in re.finditer(r'File "[^"]*", line (\d+), characters [^\n]*\n(\w+)', err):
+                if mm.group(2) == "Error":
+                    m = mm
+            if m is None:
+                m = re.search(r'line (\d+), characters[^\n]*\nError', err)
             if rc == 124 or not m:
                 for lm in sh:
                     if lm.name not in status:
